@@ -60,6 +60,9 @@ CrIdx == Ix3(3, 3, 3)
 MkCr(ix) == [t |-> "CertificateRequest", types |-> <<<<>>, <<1>>, <<1, 2, 64>>>>[ix[1]],
              sigalgs |-> <<None, Some(<<>>), Some(<<1025, 1283>>)>>[ix[2]],
              cas |-> << <<>>, << <<48, 0>> >>, << <<48, 1, 5>>, <<>> >> >>[ix[3]]]
+(* CA lists of MANY names, most of them empty (a name is a length-prefixed byte string of any size, zero included) *)
+ManyNamesCr == [k \in 1..6 |-> [t |-> "CertificateRequest", types |-> <<1>>, sigalgs |-> IF k % 2 = 0 THEN None ELSE Some(<<1025>>),
+                                  cas |-> [j \in 1..<<4, 5, 7, 40, 300, 9>>[k] |-> IF k = 6 /\ j = 2 THEN <<97>> ELSE IF k = 3 /\ j = 7 THEN <<48, 0>> ELSE <<>>]]]
 CsIdx == Ix2(3, 3)
 MkCs(ix) == [t |-> "CertificateStatus", st |-> <<0, 1, 255>>[ix[1]], blob |-> <<<<>>, <<1>>, Fill(7, 300)>>[ix[2]]]
 NpIdx == Ix2(3, 3)
@@ -78,7 +81,7 @@ ValsDef ==
   MapSeq(ChIdx, MkCh) \o BigCh \o MapSeq(ShIdx, MkSh) \o MapSeq(Sh30Idx, MkSh30)
   \o MapSeq(D18Idx, MkD18) \o MapSeq(HrrIdx, MkHrr) \o MapSeq(NstIdx, MkNst) \o [k \in 1..5 |-> MkCert(k)]
   \o MapSeq(OpIdx, MkOpaque) \o [k \in 1..5 |-> MkSke(k)] \o [k \in 1..5 |-> MkCke(k)]
-  \o MapSeq(CrIdx, MkCr) \o MapSeq(CsIdx, MkCs) \o MapSeq(NpIdx, MkNp) \o [k \in 1..3 |-> MkKu(k)]
+  \o MapSeq(CrIdx, MkCr) \o ManyNamesCr \o MapSeq(CsIdx, MkCs) \o MapSeq(NpIdx, MkNp) \o [k \in 1..3 |-> MkKu(k)]
   \o << [t |-> "HelloRequest"], [t |-> "EndOfEarlyData"] >>
   \o MagicVals \o << LongChain(1024), LongChain(1025), LongChain(5000) >>
   \o StructuredOpaque
@@ -175,6 +178,10 @@ Rejects == <<
   <<4, 0, 0, 0>>, <<4, 0, 0, 1, 7>>, <<4, 0, 0, 3, 1, 2, 3>>,              \* NewSessionTicket shorter than 4
   <<11, 0, 0, 3, 0, 0, 1>>, <<11, 0, 0, 4, 0, 0, 9, 48>>,                   \* certificate list longer than the body
   <<11, 0, 0, 2, 0, 0>>,                                                    \* certificate list length cut
+  (* ... also when the same bytes happen to be a Certificate in ANOTHER layout (RFC 8446: a request context, then entries each followed by *)
+  (* an extension block): a list length beyond the body is a list length beyond the body                                              *)
+  <<11, 0, 0, 5, 1, 170, 0, 0, 0>>, <<11, 0, 0, 14, 1, 170, 0, 0, 9, 0, 0, 4, 48, 1, 2, 3, 0, 0>>,
+  <<11, 0, 0, 15, 2, 1, 2, 0, 0, 9, 0, 0, 4, 48, 1, 2, 3, 0, 0>>,
   <<22, 0, 0, 4, 1, 0, 0, 1>>, <<22, 0, 0, 5, 1, 0, 0, 9, 7>>,              \* status blob longer than the body
   <<22, 0, 0, 3, 1, 0, 0>>,
   <<67, 0, 0, 2, 5, 1>>, <<67, 0, 0, 1, 0>>, <<24, 0, 0, 0>>,               \* next protocol / key update cut
